@@ -101,6 +101,35 @@ func init() {
 			c07CallArgs(FindFunc(lrf, "localReplicator", "Replica"), "ValidateSequence"),
 			c07CallArgs(FindFunc(lrf, "localReplicator", "Replica"), "CommitSequence")...),
 			c07CallArgs(FindFunc(lrf, "", "NewLocalReplicator"), "AckSequence")...)))
+		// the family's sequence maps: what ValidateSequence returns, where seq / persistSeq / the captured
+		// sequences are assigned (newDataFamily, Flush, Close, CommitSequence), the registration-time ack
+		fmt.Fprintf(&sb, "/-- return expressions of dataFamily.ValidateSequence, in source order -/\ndef validateSequenceReturns : List String := %s\n\n",
+			LeanStrList(c07ReturnExprs(FindFunc(dff, "dataFamily", "ValidateSequence"))))
+		fmt.Fprintf(&sb, "def newDataFamilySeqAssigns : List String := %s\n\n",
+			LeanStrList(c07Assigns(FindFunc(dff, "", "newDataFamily"), "f.seq[", "f.persistSeq[", "sequences")))
+		fmt.Fprintf(&sb, "def flushSeqAssigns : List String := %s\n\n",
+			LeanStrList(c07Assigns(FindFunc(dff, "dataFamily", "Flush"), "f.seq[", "f.persistSeq[", "immutableSeq", "f.immutableSeq")))
+		fmt.Fprintf(&sb, "def closeSeqAssigns : List String := %s\n\n",
+			LeanStrList(c07Assigns(FindFunc(dff, "dataFamily", "Close"), "f.seq[", "f.persistSeq[", "sequences")))
+		fmt.Fprintf(&sb, "def commitSequenceAssigns : List String := %s\n\n",
+			LeanStrList(c07Assigns(FindFunc(dff, "dataFamily", "CommitSequence"), "f.seq[", "seqForLeader")))
+		fmt.Fprintf(&sb, "def commitSequenceStoreArgs : List String := %s\n\n",
+			LeanStrList(c07CallArgs(FindFunc(dff, "dataFamily", "CommitSequence"), "Store")))
+		fmt.Fprintf(&sb, "def ackSequenceAssigns : List String := %s\n\n",
+			LeanStrList(c07Assigns(FindFunc(dff, "dataFamily", "AckSequence"), "f.callbacks[", "seqForLeader")))
+		fmt.Fprintf(&sb, "def ackSequenceFnArgs : List String := %s\n\n",
+			LeanStrList(c07CallArgs(FindFunc(dff, "dataFamily", "AckSequence"), "fn")))
+		fmt.Fprintf(&sb, "def flushMemDBCallbackArgs : List String := %s\n\n",
+			LeanStrList(c07CallArgs(FindFunc(dff, "dataFamily", "flushMemoryDatabase"), "fn")))
+		fmt.Fprintf(&sb, "def flushMemDBSequenceArgs : List String := %s\n\n",
+			LeanStrList(c07CallArgs(FindFunc(dff, "dataFamily", "flushMemoryDatabase"), "Sequence")))
+		if c := firstIfCond(FindFunc(lrf, "localReplicator", "Replica")); c != "" {
+			fmt.Fprintf(&sb, "def replicaFirstGuard : String := %q\n\n", c)
+		} else {
+			return "", fmt.Errorf("localReplicator.Replica: first guard not found")
+		}
+		fmt.Fprintf(&sb, "def newLocalReplicatorResetArgs : List String := %s\n\n",
+			LeanStrList(c07CallArgs(FindFunc(lrf, "", "NewLocalReplicator"), "ResetReplicaIndex")))
 		// error propagation of the flush steps: what happens on the error branch of each `if err ... != nil`
 		shf, _ := get("tsdb/shard.go")
 		dbf, _ := get("tsdb/database.go")
@@ -404,6 +433,56 @@ func c07ErrGuards(fd *ast.FuncDecl) []string {
 			}
 		}
 		out = append(out, x+"|"+as.Tok.String()+"|"+verdict)
+		return true
+	})
+	return out
+}
+
+// c07ReturnExprs = the text of every single-result return of fd, in source order.
+func c07ReturnExprs(fd *ast.FuncDecl) []string {
+	var out []string
+	if fd == nil || fd.Body == nil {
+		return out
+	}
+	ast.Inspect(fd.Body, func(n ast.Node) bool {
+		if r, ok := n.(*ast.ReturnStmt); ok && len(r.Results) == 1 {
+			out = append(out, c07Text(r.Results[0]))
+		}
+		return true
+	})
+	return out
+}
+
+// c07Assigns = the assignments / short declarations of fd (source order, function literals included)
+// one of whose left-hand sides starts with one of the prefixes, as "lhs tok rhs".
+func c07Assigns(fd *ast.FuncDecl, prefixes ...string) []string {
+	var out []string
+	if fd == nil || fd.Body == nil {
+		return out
+	}
+	ast.Inspect(fd.Body, func(n ast.Node) bool {
+		as, ok := n.(*ast.AssignStmt)
+		if !ok {
+			return true
+		}
+		var ls, rs []string
+		hit := false
+		for _, l := range as.Lhs {
+			t := c07Text(l)
+			ls = append(ls, t)
+			for _, p := range prefixes {
+				if strings.HasPrefix(t, p) {
+					hit = true
+				}
+			}
+		}
+		if !hit {
+			return true
+		}
+		for _, r := range as.Rhs {
+			rs = append(rs, c07Text(r))
+		}
+		out = append(out, strings.Join(ls, ", ")+" "+as.Tok.String()+" "+strings.Join(rs, ", "))
 		return true
 	})
 	return out
